@@ -3,9 +3,16 @@ package c01
 
 import (
 	"fmt"
+	stdhtml "html"
+	"strings"
+	"unicode/utf8"
 
 	"go.pennock.tech/tabular"
 	"go.pennock.tech/tabular/csv"
+	"go.pennock.tech/tabular/html"
+	"go.pennock.tech/tabular/length"
+	"go.pennock.tech/tabular/texttable"
+	"go.pennock.tech/tabular/texttable/decoration"
 
 	"verif/harness/internal/ev"
 	"verif/harness/internal/gen"
@@ -48,6 +55,25 @@ func applyMut(l *gen.Live, it gen.Item, m Mut) {
 	}
 }
 
+// sizeFollowsText: a cell whose item does not override its size is as tall as its text has lines and as wide
+// as its longest line, also after the item was mutated and the cell updated (the C18 relation, here across Update).
+func sizeFollowsText(where string, c *tabular.Cell, want string, it gen.Item) *ev.Violation {
+	if it.EffMask()&(gen.MHeight|gen.MWidth) != 0 || it.K == "cell" || it.K == "pcell" {
+		return nil
+	}
+	lines := oracle.Lines(want)
+	w := 0
+	for _, l := range lines {
+		if n := length.StringCells(l); n > w {
+			w = n
+		}
+	}
+	if c.Height() != len(lines) || c.TerminalCellWidth() != w || len(c.Lines()) != len(lines) {
+		return ev.V("%s: text %q has %d lines, widest %d cells, but the cell reports Height()=%d TerminalCellWidth()=%d len(Lines())=%d", where, want, len(lines), w, c.Height(), c.TerminalCellWidth(), len(c.Lines()))
+	}
+	return nil
+}
+
 func observe(where string, c *tabular.Cell, want string, orig interface{}) *ev.Violation {
 	if got := c.String(); got != want {
 		return ev.V("%s: String()=%q, documented text form is %q", where, got, want)
@@ -72,6 +98,9 @@ func CheckCase(cs Case) *ev.Violation {
 	if v := observe("NewCell", &c, want, live.V); v != nil {
 		return v
 	}
+	if v := sizeFollowsText("NewCell", &c, want, cs.Item); v != nil {
+		return v
+	}
 	// B: the same item in a table, looked up and rendered
 	live2 := gen.Materialise(cs.Item)
 	want2 := gen.TextForm(cs.Item, live2)
@@ -84,7 +113,7 @@ func CheckCase(cs Case) *ev.Violation {
 	if v := observe("cell in table", tc, want2, live2.V); v != nil {
 		return v
 	}
-	if v := csvShows(t, want2); v != nil {
+	if v := allShow(t, want2); v != nil {
 		return v
 	}
 	if cs.Mut == nil || !Mutable(cs.Item) {
@@ -101,7 +130,7 @@ func CheckCase(cs Case) *ev.Violation {
 	if v := observe("in table, after mutation, before Update", tc, want2, live2.V); v != nil {
 		return v
 	}
-	if v := csvShows(t, want2); v != nil {
+	if v := allShow(t, want2); v != nil {
 		return v
 	}
 	newWant := gen.TextForm(cs.Item, live)
@@ -109,17 +138,81 @@ func CheckCase(cs Case) *ev.Violation {
 	if v := observe("after mutation and Update", &c, newWant, live.V); v != nil {
 		return v
 	}
+	if v := sizeFollowsText("after mutation and Update", &c, newWant, cs.Item); v != nil {
+		return v
+	}
 	newWant2 := gen.TextForm(cs.Item, live2)
 	tc.Update()
 	if v := observe("in table, after mutation and Update", tc, newWant2, live2.V); v != nil {
 		return v
 	}
-	if v := csvShows(t, newWant2); v != nil {
+	if v := sizeFollowsText("in table, after mutation and Update", tc, newWant2, cs.Item); v != nil {
+		return v
+	}
+	if v := allShow(t, newWant2); v != nil {
 		return v
 	}
 	// a second Update is idempotent
 	c.Update()
 	return observe("after second Update", &c, newWant, live.V)
+}
+
+// allShow: the renderers show the same text for a one-cell table.
+func allShow(t tabular.Table, want string) *ev.Violation {
+	if v := csvShows(t, want); v != nil {
+		return v
+	}
+	// text, boxless: the content lines are the text lines padded with spaces
+	tt := texttable.Wrap(t)
+	tt.SetDecoration(decoration.NoBox())
+	out, err := tt.Render()
+	if err != nil {
+		return ev.V("boxless text render of a 1x1 table failed: %v", err)
+	}
+	got := strings.Split(strings.TrimSuffix(out, "\n"), "\n")
+	if out == "" {
+		got = nil
+	}
+	lines := oracle.Lines(want)
+	if len(got) < len(lines) {
+		return ev.V("boxless text render shows %d lines, the cell text %q has %d", len(got), want, len(lines))
+	}
+	for i := range got {
+		w := ""
+		if i < len(lines) {
+			w = lines[i]
+		}
+		if strings.TrimRight(got[i], " ") != strings.TrimRight(w, " ") {
+			return ev.V("boxless text render line %d is %q, the cell's text line is %q", i, got[i], w)
+		}
+	}
+	if utf8.ValidString(want) && !strings.Contains(want, "\x00") {
+		ho, err := html.Wrap(t).Render()
+		if err != nil {
+			return ev.V("html render of a 1x1 table failed: %v", err)
+		}
+		toks, terr := oracle.TokenizeHTML(ho)
+		if terr != nil {
+			return ev.V("html of a 1x1 table does not tokenise: %v", terr)
+		}
+		found := false
+		for i, tk := range toks {
+			if tk.Tag && !tk.Close && tk.Name == "td" {
+				raw := ""
+				if i+1 < len(toks) && !toks[i+1].Tag {
+					raw = toks[i+1].Text
+				}
+				found = true
+				if d := stdhtml.UnescapeString(raw); d != want {
+					return ev.V("html shows %q, cell text should be %q", d, want)
+				}
+			}
+		}
+		if !found {
+			return ev.V("html of a 1x1 table has no td: %s", ho)
+		}
+	}
+	return nil
 }
 
 // csvShows: a renderer shows the same text (1x1 table through CSV, parsed back strictly).
